@@ -48,6 +48,8 @@ var FaultPrelude = []string{
 	"outer = (j, c, k) -> {\nt = [j]\nfor v <- gfail(j, c, k) t = t + [v]\nt\n}",
 	wideOuter("woutera", 123), // 3 parameters + 123 locals + t + the loop variable: 128 slots, the size of a fresh iterator stack
 	wideOuter("wouterb", 140),
+	"tagged = (t, c, k) -> boom(c, k)",
+	"gtagged = (t, j, c, k) -> for v <- gfail(j, c, k) yield [t, v]",
 	"sum = (n) -> {\ns = 0\nfor i <- fromto(0, n) s = s + i\ns\n}",
 	"counter = (n) -> {\nc = 0\ninc = () -> c + 1\ni = 0\nwhile i < n {\nc = inc()\ni = i + 1\n}\nc\n}",
 	"cnd = (i, j, c, k) -> if i == j boom(c, k) else i",
@@ -115,13 +117,25 @@ func wideOuter(name string, n int) string {
 	return sb.String()
 }
 
+// richValues are argument values whose rendering in an error report meets
+// every rule of the abbreviation: many bytes in few characters, exactly at the
+// limits, nested, non-scalar.
+var richValues = []string{"\"日本語のテキストです\"", "\"ééééééééééééé\"", "\"aéééééééééé\"", "\"twenty five ascii letters\"", "\"exactly twenty chars\"", "\"seventeen chars ok\"",
+	"[\"日本語日本語\", 1]", "[1, 2, 3, 4, 5, 6, 7, 8, 9, 10, 11, 12]", "1.5", "true", "[[1, [2]], \"x\"]", "sum", "\"\"", "[]", "(0.0 / 0.0)", "9223372036854775807", "\"semi;colon arg[1]: x\""}
+
 // Carrier generates one failing statement.
 func (g *FaultGen) Carrier() Carrier {
 	c := 1 + g.pick(FaultClasses)
 	k := g.pick(9)
 	j := g.pick(5)
 	boom := fmt.Sprintf("boom(%d, %d)", c, k)
-	switch g.pick(23) {
+	switch g.pick(25) {
+	case 23:
+		return Carrier{Stmt: fmt.Sprintf("ga = tagged(%s, %d, %d)", richValues[g.pick(len(richValues))], c, k), Where: "call depth 2, below a call with a rich argument", Deep: true}
+	case 24:
+		rv := richValues[g.pick(len(richValues))]
+		return Carrier{Stmt: fmt.Sprintf("for v <- gtagged(%s, %d, %d, %d) acc = acc + [v]", rv, j, c, k),
+			Twin: fmt.Sprintf("for v <- gstop(%d) acc = acc + [[%s, v]]", j, rv), Where: "in a generator below a generator with a rich argument", Deep: true}
 	case 21, 22:
 		return Carrier{Stmt: ReaderSafeFailures[g.pick(len(ReaderSafeFailures))], Where: "parse", Parse: true}
 	case 16: // below a call in a while condition, at its j-th evaluation (top level, discarded loop)
